@@ -244,7 +244,7 @@ def main(argv):
         printed.add(key)
         log("KNOWN-FINDING: property=%s %s" % (prop, k["what"]))
     vio_records = []
-    if violations and not undecided:
+    if violations:
         rc = 1
     for idx, (u, oid, e, m) in enumerate(violations):
         h = hashlib.sha1(oid.encode()).hexdigest()[:10]
@@ -264,15 +264,13 @@ def main(argv):
         with open(rpath, "w") as f:
             json.dump(rec, f, indent=1, default=str)
         vio_records.append(rec)
-        if not undecided:
-            log("VIOLATION property=%s replay=%s%s" % (prop, rpath, suffix))
-            log("  obligation: %s" % oid)
+        log("VIOLATION property=%s replay=%s%s" % (prop, rpath, suffix))
+        log("  obligation: %s" % oid)
     if undecided:
-        rc = 2
+        if not violations:
+            rc = 2
         for uu in undecided:
             log("UNDECIDED: %s" % uu[:1500])
-        if violations:
-            log("note: %d failing obligation(s) seen but run is undecided; not reported as violation" % len(violations))
 
     ev = dict(
         property_id=prop, tier=tier, seed=seed, level="proof",
